@@ -88,3 +88,37 @@ func VerifC05Value() {
 	nd.Assert(out == "["+s+"|"+s+"|"+s+"]", "value-emitted-exactly")
 	nd.Reach("C05.value")
 }
+
+// VerifC05Long: long literal text, raw bodies and string values (around 4 KiB and 64 KiB, with
+// symbolic bytes at the chunk boundaries) are emitted unchanged and in order.
+func VerifC05Long() {
+	n := []int{4095, 4096, 4097, 8192, 65536}[nd.Choice(5)]
+	nd.Bound("C05.long_bytes", 65536)
+	mid := make([]byte, n-2)
+	for i := range mid {
+		mid[i] = byte('a' + i%26)
+	}
+	long := c05Ascii(1) + string(mid) + c05Ascii(1)
+	for i := 0; i < len(long); i += len(long) - 1 {
+		nd.Assume(long[i] != '{' && long[i] != '%' && long[i] != '}')
+	}
+	pre := nd.StringFrom(2, "pq ")
+	var src, want string
+	b := Bindings{"s": long, "pre": pre}
+	switch nd.Choice(4) {
+	case 0:
+		src, want = "{{ pre }}|{{ s }}|post", pre+"|"+long+"|post"
+	case 1:
+		src, want = "{{ pre }}|{% raw %}"+long+"{% endraw %}|post", pre+"|"+long+"|post"
+	case 2:
+		src, want = "{{ pre }}|"+long+"|{{ pre }}", pre+"|"+long+"|"+pre
+	case 3:
+		// the long text itself neither starts nor ends with whitespace here
+		nd.Assume(long[0] > ' ' && long[len(long)-1] > ' ')
+		src, want = "{{ pre -}} "+long+" {{- pre }}", pre+long+pre
+	}
+	out, err := vRender(src, b)
+	nd.Assert(err == nil, "long-renders")
+	nd.Assert(out == want, "long-content-unchanged-and-in-order")
+	nd.Reach("C05.long")
+}
